@@ -444,7 +444,7 @@ def taco_part(chk: Check, drv: Driver):
         chk.corr("deparse_to_taco", len(meta), mism)
 
 
-TACO_MODEL = False
+TACO_MODEL = True
 
 
 def run(chk: Check, drv: Driver):
